@@ -1129,9 +1129,34 @@ impl Prop for C17 {
         }
         let repeats = if case.cfg == Cfg::InBasin { 2 + (rh.finish() % 11) as usize } else { 2 + (rh.finish() % 3) as usize };
         let plan: Vec<PlanStep> = (0..repeats).map(|_| step_of(case, &case.guess, k)).collect();
+        // history on the same thread before the object under test is even built: ANOTHER object solves
+        // ANOTHER problem (a constant map) from the same guess with the same parameters. Nothing of it
+        // may survive (caches keyed by point / closure address / parameters).
+        let decoy_on = rh.finish() % 3 == 0;
+        if decoy_on {
+            let w = if e.cmplx() { 2 } else { 1 };
+            let decoy = Case { func: Func::Const { c: (0..n * w).map(|i| 1.5 + i as f64).collect() }, faults: vec![], ..case.clone() };
+            let d = solve_session(&decoy, &[step_of(&decoy, &decoy.guess, k.min(2))]);
+            stats.steps += d.iter().map(|x| (x.f_calls + x.j_calls) as u64).sum::<u64>();
+            stats.count("probe.history_other_object_other_problem_same_guess");
+        }
         let mut session = solve_session(case, &plan);
         let later: Vec<Solved> = session.split_off(1);
         let s1 = session.pop().unwrap();
+        if decoy_on {
+            // ... and the object under test must answer exactly like one built on a clean thread would:
+            // compared below through the replay / reference-model oracles, and here against a second
+            // object built after the decoy (identical by construction unless state leaked selectively)
+            let again = solve_once(case, &case.guess, k);
+            stats.steps += (again.f_calls + again.j_calls) as u64;
+            if !same_result(&s1.result, &again.result) || s1.hist != again.hist {
+                return violation(
+                    "replay-differs",
+                    &format!("{en}:other-object"),
+                    format!("{}: two freshly built objects with identical configuration answer {} and {} on the same thread", e.name(), fmt_res(&s1.result), fmt_res(&again.result)),
+                );
+            }
+        }
         let s2 = later[0].clone();
         for s in &later[1..] {
             stats.steps += (s.f_calls + s.j_calls) as u64;
